@@ -1,4 +1,5 @@
 import PyYetiVerif.Model.Op2
+import PyYetiVerif.Model.Op2Read
 /-! Line protocol for C11 (numbers decimal, byte strings hex).
 
   encv <l|b> <bit64> <single> <n> vmat…        → hex bytes of an OUTPUT4 binary variant file
@@ -10,8 +11,17 @@ import PyYetiVerif.Model.Op2
   op2 <l|b> <bit64> <d1> <d2> <d3> <labelhex> <n> block…            → `<hex> <start:stop,start:stop,…>`
      block = m <namehex> <t1..t7> <single> <ncols> { <nstr> { <row> <nreals> real… } }
            | t <namehex> <t1..t7> <nrec> { <npieces> { <nkeys> key… } }
+  rd2 <hex>    → the reader model of Model/Op2Read.lean (transcription of op2.py) run on the bytes:
+     `err <class>` when `OP2(file)` raises (struct value index empty exotic), else
+     `ok <l|b> <bit64> <d1,d2,d3|-> <labelhex|-> <hasheader> <postpos> <nblocks> block… MATS mats`
+     block = B <namehex|-> <start> <stop> <dbtype> <rows>,<cols> <trailer,…|-> <nheaders> { <h1,h2,h3> <reclen> }
+             <position after set_position(start); goto_next()>
+             then the block read from its start (`rdop2nt` + `rdop2matrix` / `rdop2record` until None):
+               M <storedrows> <cplx> <width> <ncols> { <nnz> { <row>:<bits> } } <endpos>
+             | T <nrec> { <n> key… } <endpos>  |  E <class>
+     mats  = <n> { <namehex|-> M … }  |  E <class>            (`rdop2mats()`)
 -/
-open PyYetiVerif.Op4 PyYetiVerif.Op4V PyYetiVerif.Op2
+open PyYetiVerif.Op4 PyYetiVerif.Op4V PyYetiVerif.Op2 PyYetiVerif.Op2R
 
 abbrev P := StateT (List String) Option
 
@@ -143,6 +153,90 @@ def blockP : P Block := do
     pure (.tab { name, trailer, records := recs })
   | _ => failure
 
+
+/-! ### the reader model on raw bytes -/
+
+def unhexFast (t : String) : Option (List Nat) :=
+  let b := t.toUTF8
+  if b.size % 2 ≠ 0 then none else Id.run do
+    let mut out : Array Nat := Array.mkEmpty (b.size / 2)
+    let mut good := true
+    for i in [0:b.size / 2] do
+      match hexVal (Char.ofNat (b.get! (2 * i)).toNat), hexVal (Char.ofNat (b.get! (2 * i + 1)).toNat) with
+      | some x, some y => out := out.push (x * 16 + y)
+      | _, _ => good := false
+    if good then some out.toList else none
+
+def errName : Err → String
+  | .struct => "struct"
+  | .value => "value"
+  | .index => "index"
+  | .empty => "empty"
+  | .exotic => "exotic"
+  | .fuel => "fuel"
+
+def hexOrDash (b : List Nat) : String := if b.isEmpty then "-" else toHex b
+def intsTok (xs : List Int) : String := if xs.isEmpty then "-" else ",".intercalate (xs.map toString)
+
+def matToks (m : PyYetiVerif.Op2R.Mat) (out : Array String) : Array String := Id.run do
+  let mut out := (((((out.push "M").push (toString m.rows)).push (if m.cplx then "1" else "0")).push
+    (toString m.width)).push (toString m.cols.length))
+  for c in m.cols do
+    let mut i := 0
+    let mut ent : Array String := #[]
+    for x in c do
+      if x != 0 then ent := ent.push s!"{i}:{x}"
+      i := i + 1
+    out := out.push (toString ent.size)
+    out := out ++ ent
+  return out
+
+def hugeEntry (x : PyYetiVerif.Op2R.Entry) : Bool := x.size.1.natAbs * x.size.2.natAbs > 20000000
+
+def blockToks (v : V2) (f : List Nat) (total : Nat) (dir : List PyYetiVerif.Op2R.Entry) (x : PyYetiVerif.Op2R.Entry) (out : Array String) : Array String := Id.run do
+  let mut out := (((((((out.push "B").push (hexOrDash x.name)).push (toString x.start)).push (toString x.stop)).push
+    (toString x.dbtype)).push s!"{x.size.1},{x.size.2}").push (intsTok x.trailer)).push (toString x.headers.length)
+  for h in x.headers do
+    out := (out.push (intsTok h.1)).push (toString h.2)
+  out := out.push (match gotoNext dir x.start with | .ok p => toString p | .error e => errName e)
+  if x.dbtype > 0 && hugeEntry x then return (out.push "E").push "huge" else
+  match rdBlock v (f.drop x.start) with
+  | .error e => return (out.push "E").push (errName e)
+  | .ok (none, _) => return (out.push "E").push "eof"
+  | .ok (some (_, .mat m), s) => return (matToks m out).push (toString (total - s.length))
+  | .ok (some (_, .tab rs), s) =>
+    out := (out.push "T").push (toString rs.length)
+    for r in rs do
+      out := out.push (toString r.length)
+      for k in r do
+        out := out.push (toString k)
+    return out.push (toString (total - s.length))
+
+def rd2 (f : List Nat) : String :=
+  match openOp2 f with
+  | .error e => "err " ++ errName e
+  | .ok o => Id.run do
+    let total := f.length
+    let mut out : Array String := #["ok", (match o.v.e with | .little => "l" | .big => "b"), (if o.v.bit64 then "1" else "0")]
+    match o.header with
+    | none => out := ((out.push "-").push "-").push "0"
+    | some h => out := ((out.push (intsTok h.date)).push (hexOrDash h.label)).push "1"
+    out := (out.push (toString o.postpos)).push (toString o.dir.length)
+    for x in o.dir do
+      out := blockToks o.v f total o.dir x out
+    out := out.push "MATS"
+    let mats : Array String :=
+      if o.dir.any hugeEntry then #["E", "huge"] else
+        match rdMats o.v f o.dir with
+        | .error e => #["E", errName e]
+        | .ok ms => Id.run do
+          let mut a : Array String := #[toString ms.length]
+          for (n, m) in ms do
+            a := matToks m (a.push (hexOrDash n))
+          return a
+    out := out ++ mats
+    return " ".intercalate out.toList
+
 def run (p : P String) (ws : List String) : String :=
   match p.run ws with
   | some (s, []) => s
@@ -175,6 +269,11 @@ def answer (line : String) : String :=
       let pos := positions v date label bs
       pure (toHex (encOp2 v date label bs) ++ " " ++
         ",".intercalate (pos.map fun (a, b) => s!"{a}:{b}"))) ws
+  | ["rd2", hx] =>
+    match unhexFast hx with
+    | some f => rd2 f
+    | none => "bad-op"
+  | ["rd2"] => rd2 []
   | _ => "bad-op"
 
 partial def loop (h : IO.FS.Stream) (out : IO.FS.Stream) : IO Unit := do
